@@ -49,6 +49,9 @@ def gen_case(rng, W):
     for _ in range(rng.randint(2, 5)):
         g.new()
     g.n_inputs = g.nxt
+    if rng.random() < 0.3:
+        # the OpenMP routines are C13's subject, but forward = reverse = chooser must also hold when they are the ones used
+        g.emit("threads %d" % rng.randint(2, 6))
     g.emit("nr")
     g.program(rng.randint(3, 28))
     g.emit("tape")
@@ -247,7 +250,6 @@ def run(ctx, replay):
             print("\n".join("%-40s | %s" % (o, l) for o, l in zip(ops, il)))
             continue
         cases = [gen_case(ctx.rng, W) for _ in range(ncase)]
-        # OpenMP is exercised by C13; here the serial routines (threads stays 1)
         run_cases(ctx, exe, label, cases)
     ctx.cov["rule"] = ("random straight-line integer programs (expression trees of height<=2 over + - * neg, copies, compound ops, "
                        "add/append_derivative_dependence, new/delete of actives in non-LIFO order), then independent/dependent lists with "
